@@ -1,5 +1,5 @@
 SPECIFICATION Spec
-CONSTANTS Mode = "energy"  Variant = "shift"  Family = "list"  List = { 1010101 }  Steps = 1
+CONSTANTS Mode = "energy"  Variant = "shift"  Family = "list"  List = { 1010101 }  Steps = 1  PairMod = 7
           Extra = { 0 }
 INVARIANT TypeOK
 INVARIANT EnergyBalance
